@@ -933,10 +933,109 @@ def r13_4(ctx, counts: dict[str, int]) -> RuleResult:
     return res
 
 
+def r13_9(ctx, counts: dict[str, int]) -> RuleResult:
+    """The set operations of CharacterClass, interpreted over Venn regions."""
+    from ..engine.venn import VennInterp, region_masks
+    model = ctx.model
+    res = RuleResult(
+        'R13.9', 'CLASS-ALGEBRA-OVER-VENN-REGIONS',
+        'A CharacterClass denotes den = positive ∪ ¬negative (the complemented part only when '
+        'negative is non-empty). The in-place operations on that pair are straight-line set code '
+        'with tests for emptiness; such code computes a Boolean identity for all sets iff it does '
+        'so for every inhabitation pattern of the Venn regions of its operands (2^(2^k) patterns '
+        'for k operand sets). The AST of each operation is interpreted (not executed) over region '
+        'bitmasks for every pattern and the resulting pair is compared with the specification: '
+        '__isub__: den − den(other); _add_complement(X): den ∪ ¬X; _discard_subset(X): den − X; '
+        '_discard_complement(X): den ∩ X; complement(): ¬den. [\\Da-[\\D]] is the empty class '
+        'and [\\D-[\\Sa]] the white spaces.')
+    cls = model.find_class('CharacterClass')
+
+    def den(p: int, n: int, u: int) -> int:
+        return p | ((u & ~n) if n else 0)
+
+    SPECS = {
+        '__isub__': (['self.positive', 'self.negative', 'other.positive', 'other.negative'],
+                     lambda e0, u: den(e0[0], e0[1], u) & ~den(e0[2], e0[3], u) & u,
+                     'den(self) − den(other)'),
+        '_add_complement': (['self.positive', 'self.negative', 'subset'],
+                            lambda e0, u: den(e0[0], e0[1], u) | (u & ~e0[2]), 'den ∪ ¬subset'),
+        '_discard_subset': (['self.positive', 'self.negative', 'subset'],
+                            lambda e0, u: den(e0[0], e0[1], u) & ~e0[2] & u, 'den − subset'),
+        '_discard_complement': (['self.positive', 'self.negative', 'subset'],
+                                lambda e0, u: den(e0[0], e0[1], u) & e0[2], 'den ∩ subset'),
+        'complement': (['self.positive', 'self.negative'],
+                       lambda e0, u: u & ~den(e0[0], e0[1], u), '¬den'),
+    }
+    n_ops = 0
+    total = 0
+    for name, (gens, spec, text) in SPECS.items():
+        m = cls.methods.get(name)
+        if m is None:
+            if name in ('__isub__', 'complement'):
+                raise AnalysisError(f'CharacterClass.{name} vanished')
+            continue
+        params = m.params()
+        other = params[1] if len(params) > 1 else None
+        gens = [g.replace('other', other).replace('subset', other) if other else g for g in gens]
+        masks, full = region_masks(len(gens))
+        variants = [False, True] if any(
+            isinstance(c, ast.Call) and dotted(c.func) == 'isinstance' and len(c.args) == 2
+            and dotted(c.args[1]) == 'str' for c in ast.walk(m.node)) else [False]
+        n_ops += 1
+        bad = None
+        n_pat = 0
+        for is_str in variants:
+            def calls(c: ast.Call, _s=is_str):
+                if dotted(c.func) == 'isinstance' and len(c.args) == 2:
+                    return _s if dotted(c.args[1]) == 'str' else True
+                return None
+            for inh in range(full + 1):
+                e0 = [g & inh for g in masks]
+                env = dict(zip(gens, e0))
+                out = VennInterp(m.node, env, inh, calls).execute()
+                got = den(out['self.positive'], out['self.negative'], inh)
+                want = spec(e0, inh)
+                n_pat += 1
+                if got != want:
+                    bad = (inh, e0, out, got, want)
+                    break
+            if bad:
+                break
+        total += n_pat
+        res.instances.append(f'{m.key}: = {text} in {n_pat} inhabitation patterns of '
+                             f'{1 << len(gens)} regions: {bad is None}')
+        if bad is None:
+            res.ok()
+        else:
+            inh, e0, out, got, want = bad
+
+            def regions(mask: int) -> str:
+                names = []
+                for r in range(1 << len(gens)):
+                    if mask >> r & 1:
+                        names.append('{' + ','.join(
+                            ('' if r >> i & 1 else '¬') + g.split('.')[-1][0].upper() + (
+                                '2' if not g.startswith('self.') and len(gens) == 4 else
+                                ('1' if len(gens) == 4 else ''))
+                            for i, g in enumerate(gens)) + '}')
+                return ' '.join(names) or '∅'
+            res.fail(finding('R13.9', m, m.node, f'{name} is not {text}',
+                             f'CharacterClass.{name} does not compute {text}: with the inhabited '
+                             f'regions {regions(inh)} the result denotes {regions(got)} but the '
+                             f'specification gives {regions(want)} (P/N = positive/negative part'
+                             f'{", 1 = self, 2 = " + other if len(gens) == 4 else ""})'))
+    counts['class_operations'] = n_ops
+    counts['venn_patterns'] = total
+    if n_ops < 2:
+        raise AnalysisError(f'CharacterClass set operations located: {n_ops}')
+    return res
+
+
 def run(ctx) -> dict:
     counts: dict[str, int] = {}
     results = [r13_1(ctx, counts), r13_2(ctx, counts), r13_3(ctx, counts), r13_4(ctx, counts),
-               r13_6(ctx, counts), r13_7(ctx, counts), r13_8(ctx, counts)]
+               r13_6(ctx, counts), r13_7(ctx, counts), r13_8(ctx, counts),
+               r13_9(ctx, counts)]
     # the run-length builders of the category tables (fallback for Unicode versions without a
     # generated table, and the UnicodeData.txt loader) treat major and minor categories with
     # cloned blocks: the clones must be consistent
